@@ -229,7 +229,10 @@ Inductive info_op :=
 | ISetMask (m : mspec)                              (* info.mask = m *)
 | ICopyWith (og : option (order * gspec)) (om : option mspec)   (* info = info.copy_with(...) *)
 | ICopy                                             (* info = copy.copy(info) *)
-| IAccepts (other : mspec) (down : bool).           (* info.accepts(Info(grid=info.grid, mask=other)) *)
+| IAccepts (other : mspec) (down : bool)            (* info.accepts(Info(grid=info.grid, mask=other)) *)
+| IAcceptsDerived (g : gspec) (down : bool).        (* info.accepts(info.copy_with(grid=other layout)):
+                                                       the derived info shares the mask OBJECT; the model
+                                                       has no object identity, only the value counts *)
 
 Inductive seq_obs :=
 | SPrep (d : list Z) (m : option (list bool))
@@ -249,6 +252,8 @@ Definition info_step (st : info_state) (op : info_op) : info_state * seq_obs :=
   | ICopy => (st, SNothing)
   | IAccepts other down =>
       (st, SAcc (accepts_mask (i_mask st) (Some (i_grid st)) other (Some (i_grid st)) down))
+  | IAcceptsDerived g down =>
+      (st, SAcc (accepts_mask (i_mask st) (Some (i_grid st)) (i_mask st) (Some g) down))
   end.
 
 Fixpoint info_run (st : info_state) (ops : list info_op) : list seq_obs :=
